@@ -183,6 +183,9 @@ func newMachine(c *Ctx, name string) *Machine {
 	m.lineV = info.Defs[m.fn.Type.Params.List[1].Names[0]]
 	nLoops := 0
 	for _, s := range m.fn.Body.List {
+		if ls, ok := s.(*ast.LabeledStmt); ok {
+			s = ls.Stmt // scan: for … { … break scan … }
+		}
 		if fs, ok := s.(*ast.ForStmt); ok {
 			m.loop = fs
 			nLoops++
